@@ -215,7 +215,12 @@ func genC17(seed int64, tier string) []caseOut {
 				if e != nil {
 					continue
 				}
-				vm, e := ariesdid.NewVerificationMethodFromJWK(fmt.Sprintf("key%d", j+1), "JsonWebKey2020", "", jk)
+				// ids that differ only in letter case must still have one fixed order
+				keyID := []string{"keyA", "keya", "KeyA", "KEYA", "keyB", "Keyb"}[j%6]
+				if i%2 == 1 {
+					keyID = fmt.Sprintf("key%d", j+1)
+				}
+				vm, e := ariesdid.NewVerificationMethodFromJWK(keyID, "JsonWebKey2020", "", jk)
 				if e != nil {
 					continue
 				}
